@@ -8,6 +8,7 @@ import (
 	"bytes"
 	"encoding/binary"
 	"fmt"
+	"math/big"
 	"sort"
 	"strings"
 
@@ -114,12 +115,33 @@ func enc(buf *bytes.Buffer, v interface{}) {
 		var b [8]byte
 		binary.BigEndian.PutUint64(b[:], uint64(int64(x)))
 		buf.Write(b[:])
+	case big.Int:
+		encBig(buf, &x)
+	case *big.Int:
+		encBig(buf, x)
 	case cbor.Tag:
 		head(buf, 6, x.Number)
 		enc(buf, x.Content)
 	default:
 		panic(fmt.Sprintf("faults.Encode: unsupported %T", v))
 	}
+}
+
+// encBig writes a CBOR bignum (tag 2 / 3).
+func encBig(buf *bytes.Buffer, x *big.Int) {
+	if x.Sign() >= 0 {
+		head(buf, 6, 2)
+		b := x.Bytes()
+		head(buf, 2, uint64(len(b)))
+		buf.Write(b)
+		return
+	}
+	n := new(big.Int).Neg(x)
+	n.Sub(n, big.NewInt(1))
+	head(buf, 6, 3)
+	b := n.Bytes()
+	head(buf, 2, uint64(len(b)))
+	buf.Write(b)
 }
 
 // Node is one addressable position of a tree.
